@@ -29,6 +29,7 @@ type Peers struct {
 	melt chan struct{}
 
 	collectLock sync.Mutex
+	endOnce     sync.Once
 }
 
 // NewPeers constructs a fresh container of remote peers.
@@ -120,8 +121,12 @@ func (p *Peers) purgeClosedPeers() {
 }
 
 // End closes all active connections to Peers contained here, and stops the
-// collection of future Peers.
+// collection of future Peers. It is safe to call End more than once.
 func (p *Peers) End() {
+	p.endOnce.Do(p.end)
+}
+
+func (p *Peers) end() {
 	close(p.melt)
 	p.collectLock.Lock()
 	defer p.collectLock.Unlock()
